@@ -65,6 +65,26 @@ pub fn huge_file_tree() -> (Opts, Tree) {
     (Opts::defaults(), t)
 }
 
+/// One index hunk of more than 32 MiB with default options: 10 000 small files at the end of
+/// a chain of thirteen directories with 250-byte names (every path is about 3.3 KB long).
+pub fn big_hunk_tree() -> (Opts, Tree) {
+    let m = plain_meta();
+    let mut t = Tree::empty_root(Meta { mode: 0o755, ..m });
+    let mut dir = String::new();
+    for level in 0..13 {
+        let c = (b'a' + level as u8) as char;
+        dir.push('/');
+        dir.push_str(&c.to_string().repeat(250));
+        t.0.insert(dir.clone(), Node { kind: Kind::Dir, meta: Meta { mode: 0o755, ..m } });
+    }
+    for i in 0..10_000usize {
+        let pool = 2 + (i % 6) as u8;
+        let len = 1 + (i / 6) as u32 % 40;
+        t.0.insert(format!("{dir}/f{i:05}"), Node { kind: Kind::File { pool, len }, meta: Meta { mtime_s: m.mtime_s + i as i64, ..m } });
+    }
+    (Opts::defaults(), t)
+}
+
 /// Should this worker run the probes? (one worker, not the corpus-replaying one)
 pub fn mine(idx: u32, of: u32) -> bool {
     idx == of / 2
